@@ -13,6 +13,7 @@ import (
 	"context"
 	"encoding/json"
 	"errors"
+	stdflag "flag"
 	"fmt"
 	"os"
 	"path/filepath"
@@ -503,7 +504,25 @@ func run(raw json.RawMessage) driver.Result {
 
 	// the three layers, from the real sources
 	envV, envErr := (&env.Source{}).Value(ctxBG, typ)
+	// how the flag source meets the standard library's flag set: built by dials alone; or with flags the
+	// APPLICATION registered first ("if the flag already exists, don't register so the user can override
+	// our behavior" - the flag still fills the field); or one flag set shared by two initialisations
+	// (flag.CommandLine in a program that sets up its configuration twice)
+	flagMode := r.Intn(6)
+	var sharedFS *stdflag.FlagSet
+	if flagMode <= 1 {
+		sharedFS = stdflag.NewFlagSet("", stdflag.ContinueOnError)
+		if flagMode == 0 {
+			sharedFS.Int("a", 99, "registered by the application")
+			sharedFS.String("b", "app", "registered by the application")
+			sharedFS.String("configfile", "", "registered by the application")
+		}
+	}
 	mkFlags := func() *flag.Set {
+		if sharedFS != nil {
+			fs, args := sharedFS, flagArgs(flagL)
+			return &flag.Set{Flags: fs, ParseFunc: func() error { return fs.Parse(args) }}
+		}
 		tmpl := *defaults
 		s, err := flag.NewSetWithArgs(flag.DefaultFlagNameConfig(), &tmpl, flagArgs(flagL))
 		if err != nil {
